@@ -8,13 +8,15 @@ CONSTANTS
   Colls = {1, 12}
   Chans = {"ch", "ch1"}
   MsgIds = {"m", "m1"}
+  Reserved = {"rpc", "tmp"}
+  PosKeyPositive = FALSE
   ZeroColl = TRUE
   Backend = "mysql"
   DelNoRoot = FALSE
   LikeRaw = FALSE
   MsgAllRaw = FALSE
   EtcdMsgShared = FALSE
-  OpsOn = {"putTask", "putPos", "getTask", "getAll", "getPos", "setState", "updPos", "dropPos", "delPos", "delTask", "msgPut", "msgAll", "msgGet", "msgDel"}
+  OpsOn = {"putTask", "putPos", "getTask", "getAll", "getPos", "getPosC", "setState", "updPos", "dropPos", "delPos", "delTask", "msgPut", "msgAll", "msgGet", "msgDel"}
   FaultsOn = TRUE
   Rand = TRUE
   SeedOps = 4
